@@ -152,6 +152,35 @@ pub struct S6 {
 }
 struct_node!(S6, S6Owned, sized: [], unsized: [(0, m, Map<u8, PackedValue<u16>, u8>), (1, um, UnsizedMap<u8, List<u8, u8>>), (2, st, UnsizedString<u8>), (3, set, Set<PackedValue<u32>>), (4, um2, UnsizedMap<u8, S3>)]);
 
+/// generic structs: the sized part's CheckedBitPattern impl is written by the macro, not by bytemuck's derive
+/// (with and without the leading PhantomData marker)
+#[unsized_type(skip_idl, skip_phantom_generics)]
+pub struct G1<A: star_frame::unsize::impls::UnsizedGenerics, B>
+where
+    B: star_frame::unsize::impls::UnsizedGenerics,
+{
+    pub g1: A,
+    pub g2: B,
+    pub g3: u8,
+    #[unsized_start]
+    pub l: List<u8>,
+}
+pub type G1bb = G1<bool, bool>;
+pub type G1bbOwned = G1Owned<bool, bool>;
+struct_node!(G1bb, G1bbOwned, sized: [(g1, bool), (g2, bool), (g3, u8)], unsized: [(1, l, List<u8>)]);
+
+#[unsized_type(skip_idl)]
+pub struct G2<A: star_frame::unsize::impls::UnsizedGenerics> {
+    pub h1: bool,
+    pub h2: PackedValue<u16>,
+    #[unsized_start]
+    pub l: List<A, u8>,
+    pub m: List<u8>,
+}
+pub type G2b = G2<bool>;
+pub type G2bOwned = G2Owned<bool>;
+struct_node!(G2b, G2bOwned, sized: [(h1, bool), (h2, PackedValue<u16>)], unsized: [(1, l, List<bool, u8>), (2, m, List<u8>)]);
+
 // ---- the family ----------------------------------------------------------------------------------
 /// call `$m!(index, Type)` for the selected shape
 #[macro_export]
@@ -177,8 +206,10 @@ macro_rules! with_shape {
             16 => $m!($crate::shapes::S6),
             17 => $m!(UnsizedList<List<u8, u8>>),
             18 => $m!(UnsizedMap<u8, $crate::shapes::S3>),
+            19 => $m!($crate::shapes::G1bb),
+            20 => $m!($crate::shapes::G2b),
             _ => panic!("unknown shape"),
         }
     };
 }
-pub const N_SHAPES: i128 = 19;
+pub const N_SHAPES: i128 = 21;
